@@ -12,13 +12,13 @@ open Primaite.Route (findBestRoute Table)
 
 /-- a plain, powered-on router accepts ARP (exempt from the ACL) and ICMP (default rule). -/
 theorem plain_router_permits (nd : Node) (i : Nat) (pl : Pl) (hfw : nd.fw = none)
-    (hpl : pl ≠ .dataReq ∧ pl ≠ .dataRep) : aclDenies nd i pl = false := by
+    (hpl : pl ≠ .dataReq ∧ pl ≠ .dataRep ∧ appDenied nd.serves pl = false) : aclDenies nd i pl = false := by
   unfold aclDenies
   rw [hfw]
   simp only
   have h1 : (pl == .dataReq) = false := by simpa using hpl.1
-  have h2 : (pl == .dataRep) = false := by simpa using hpl.2
-  simp [h1, h2]
+  have h2 : (pl == .dataRep) = false := by simpa using hpl.2.1
+  simp [h1, h2, hpl.2.2]
 
 /-- the router is asked for the address of the interface the request arrives on: it learns the requester and answers. -/
 theorem router_arp_req (fuel : Nat) (X : St) (r i : Nat) (nd : Node) (ifc own : Iface) (f : Frame) (sIp : Ip) (sMac : Mac)
@@ -33,7 +33,7 @@ theorem router_arp_req (fuel : Nat) (X : St) (r i : Nat) (nd : Node) (ifc own : 
   have hn' : (X.emit (.rx r i f.id f.ttl)).node? r = some nd := hn
   have hi' : (X.emit (.rx r i f.id f.ttl)).iface? r i = some ifc := hi
   have hpl' : f.dec.pl = .arpReq sIp sMac ifc.ip := hpl
-  have hacl : aclDenies nd i (.arpReq sIp sMac ifc.ip) = false := plain_router_permits nd i _ hfw ⟨by simp, by simp⟩
+  have hacl : aclDenies nd i (.arpReq sIp sMac ifc.ip) = false := plain_router_permits nd i _ hfw ⟨by simp, by simp, rfl⟩
   have hd' : f.dec.dstIp = ifc.ip := hd
   have hbd : (f.dec.dstMac == bcastMac) = true := by simp [Frame.dec, hb]
   have hnd1 : ((Pl.arpReq sIp sMac ifc.ip) == .dataReq || (Pl.arpReq sIp sMac ifc.ip) == .dataRep) = false := rfl
@@ -75,7 +75,7 @@ theorem router_arp_rep (fuel : Nat) (X : St) (r i : Nat) (nd : Node) (ifc own : 
   have hn' : (X.emit (.rx r i f.id f.ttl)).node? r = some nd := hn
   have hi' : (X.emit (.rx r i f.id f.ttl)).iface? r i = some ifc := hi
   have hpl' : f.dec.pl = .arpRep sIp sMac ifc.ip tMac := hpl
-  have hacl : aclDenies nd i (.arpRep sIp sMac ifc.ip tMac) = false := plain_router_permits nd i _ hfw ⟨by simp, by simp⟩
+  have hacl : aclDenies nd i (.arpRep sIp sMac ifc.ip tMac) = false := plain_router_permits nd i _ hfw ⟨by simp, by simp, rfl⟩
   have hd' : f.dec.dstIp = ifc.ip := hd
   have hbd : (f.dec.dstMac == bcastMac) = false := by simp [Frame.dec, hm, hnb]
   have hnd1 : ((Pl.arpRep sIp sMac ifc.ip tMac) == .dataReq || (Pl.arpRep sIp sMac ifc.ip tMac) == .dataRep) = false := rfl
@@ -96,7 +96,7 @@ theorem host_echo_req_any (fuel : Nat) (X : St) (b : Nat) (nd : Node) (ifc : Ifa
        | some _ => (sendIcmp fuel (resolveOut fuel ((X.modNode b (fun nd => nd.addArp f.srcIp f.srcMac 0)).emit
           (.sw b f.id f.dstIp (f.dstMac == bcastMac))) b f.srcIp).1 b f.srcIp (.echoRep ident), f)) := by
   have hi := iface0_of X b nd ifc hn hifs
-  simp only [hostRecv, hn, hi, hon, if_true, hpl, hd, bne_self_eq_false, Bool.false_eq_true, if_false]
+  simp only [hostRecv, portClosed, Bool.false_eq_true, if_false, hn, hi, hon, if_true, hpl, hd, bne_self_eq_false, Bool.false_eq_true, if_false]
   rfl
 
 theorem host_echo_rep_any (fuel : Nat) (X : St) (a : Nat) (nd : Node) (ifc : Iface) (f : Frame) (ident : Nat)
@@ -105,7 +105,7 @@ theorem host_echo_rep_any (fuel : Nat) (X : St) (a : Nat) (nd : Node) (ifc : Ifa
       (((X.modNode a (fun nd => nd.addArp f.srcIp f.srcMac 0)).emit (.sw a f.id f.dstIp (f.dstMac == bcastMac))).modNode a
         (fun nd => { nd with replies := bumpReply nd.replies ident }), f) := by
   have hi := iface0_of X a nd ifc hn hifs
-  simp only [hostRecv, hn, hi, hon, if_true, hpl]
+  simp only [hostRecv, portClosed, Bool.false_eq_true, if_false, hn, hi, hon, if_true, hpl]
 
 theorem arpGet_addArp_other (nd : Node) (ip ip' : Ip) (mac : Mac) (i : Nat) (h : ip' ≠ ip) :
     (nd.addArp ip mac i).arpGet ip' = nd.arpGet ip' := by
@@ -240,8 +240,8 @@ theorem router_forward_cold (fuel : Nat) (X : St) (c : List NodeCfg) (a r b ia i
     simp only [ifaceRecv, S.ns, hi, h1, if_false, hkR, hacc, if_true, hX1]
   have hperm : aclDenies ndR ia f.dec.pl = false := by
     apply plain_router_permits ndR ia _ hfwR
-    show f.pl ≠ .dataReq ∧ f.pl ≠ .dataRep
-    rcases hpl with h | h <;> (rw [h]; exact ⟨by simp, by simp⟩)
+    show f.pl ≠ .dataReq ∧ f.pl ≠ .dataRep ∧ appDenied ndR.serves f.pl = false
+    rcases hpl with h | h <;> (rw [h]; exact ⟨by simp, by simp, rfl⟩)
   have htr : transitOk ndR ia f.dec.pl f.dec.dstIp = true := by
     unfold transitOk; rw [hfwR]; simp [honR, hperm]
   have hlearn : X1.modNode r (fun nd => nd.addArp f.dec.srcIp f.dec.srcMac ia) = X1 := by
@@ -252,7 +252,8 @@ theorem router_forward_cold (fuel : Nat) (X : St) (c : List NodeCfg) (a r b ia i
     subst this
     exact addArp_known nd' _ _ _ es hes
   have s2 : routerRecv (fuel + 12 + 1) X1 r ia f.dec = routerProcess (fuel + 12) X1 r ia f.dec := by
-    rw [C08_router_transit (fuel + 12) X1 r ia f.dec ndR ra S1.ns hi1 htr (by show ifaceWithIp ndR.ifaces f.dstIp = none; rw [hd]; exact hnotown),
+    rw [C08_router_transit (fuel + 12) X1 r ia f.dec ndR ra S1.ns hi1 htr (by show ifaceWithIp ndR.ifaces f.dstIp = none; rw [hd]; exact hnotown)
+      (by intro h; rw [hfwR] at h; cases h),
       hlearn]
   -- the nested exchange
   obtain ⟨Y, hY, SY⟩ := router_host_arp fuel X1 c b r a ib ib ndB ndR ndA ifB rb ownB S1 hab hbr har hifsB henB hpeerB hkB honB hinB hkR
@@ -470,7 +471,7 @@ theorem C08_permitted_exchange_succeeds_cold_routed (fuel : Nat) (st : St) (a r 
   -- (5) the router forwards the reply from its cache
   have hopR : Hop X4.nodes (.echoRep st.nextId) ifB.ip ifA.ip r ib rb.mac a 0 ra.mac ifA.mac :=
     ⟨⟨R2, rb, _, { ip := ifA.ip, mac := ifA.mac, ifc := ia }, ra, ifA, SX4.ns, R2kind,
-      by unfold transitOk; rw [R2fw]; simp [R2on, plain_router_permits R2 ib (.echoRep st.nextId) R2fw ⟨by simp, by simp⟩],
+      by unfold transitOk; rw [R2fw]; simp [R2on, plain_router_permits R2 ib (.echoRep st.nextId) R2fw ⟨by simp, by simp, rfl⟩],
       by rw [R2ifs]; exact h.portB, rfl, hgR2, by rw [R2ifs]; exact h.notOwnA, Or.inr (Or.inl ⟨R2A, h.raA⟩),
       by rw [R2ifs]; exact h.portA, h.raEn, h.raPeer,
       by have := SX4.na; unfold St.node? at this; rw [this, Option.bind_some, A1ifs]; rfl, h.enA, rfl, rfl⟩⟩
